@@ -2,12 +2,13 @@
 //
 // One binary, several TUs (the template instantiations are heavy, so they are compiled in parallel):
 //   c13_main.cpp                 main(): collects the configurations, balances them over the shards, replay
-//   c13_dary_heap[_b].cpp        tlx::DAryHeap                 arity 1..4 [5..8] x {less, greater, table comparator}
-//   c13_addressable_heap[_b].cpp tlx::DAryAddressableIntHeap   arity 1..4 [5..8], comparator = external priority table
-//   c13_radix_heap[_b,_c,_d].cpp tlx::RadixHeap                8 key types x radix {2,4,8,16,64}
+//   c13_dary_heap[_b.._d].cpp        tlx::DAryHeap               two arities each x {less, greater, table comparator}
+//   c13_addressable_heap[_b,_c].cpp  tlx::DAryAddressableIntHeap arity 1..8, comparator = external priority table
+//   c13_radix_heap[_b.._h].cpp       tlx::RadixHeap              one key type each x radix {2,4,8,16,64}
 // A configuration = one template instantiation driven by vhist (closure or depth-bounded BFS).
 #pragma once
 #include <cstdint>
+#include <cstring>
 #include <functional>
 #include <memory>
 #include <string>
@@ -97,8 +98,25 @@ Config make_config(std::shared_ptr<Sys> sys, double cost, const vhist::Options& 
     return c;
 }
 
+// The engine re-creates a state by replaying its history and calls apply() for every replayed op.  The post-op
+// oracles of a replayed PREFIX were already evaluated when that prefix was first executed as a new transition
+// (BFS: every prefix of a node's history is itself a node; the code is deterministic, which the engine's
+// canon-on-replay assertion checks), so they are evaluated again only for the last op of the history the engine
+// has published (vh::at): that is the new transition, or the last op of a rebuilt base state.
+// `steps` = number of ops applied to this state so far (including the current one).
+inline bool is_last_op_of_published_history(size_t steps) {
+    const char* r = vh::shm()->replay;
+    const char* bar = strrchr(r, '|');
+    if (!bar) return true;
+    if (bar[1] == '-' || bar[1] == 0) return true;
+    size_t n = 1;
+    for (const char* p = bar + 1; *p; ++p)
+        if (*p == ',') n++;
+    return steps >= n;
+}
+
 // key lists for build_heap: code -> list of length <= 3 over nk keys (code 0 = empty list)
-inline std::vector<int> decode_list(unsigned code, int nk) {
+inline std::vector<int> decode_list_uncached(unsigned code, int nk) {
     std::vector<int> l;
     unsigned off = 0, cnt = 1;
     for (int len = 0; len <= 3; ++len) {
@@ -115,6 +133,14 @@ inline std::vector<int> decode_list(unsigned code, int nk) {
     }
     return l;
 }
+inline const std::vector<int>& decode_list(unsigned code, int nk) {
+    static std::vector<std::vector<int>> tab[32];
+    std::vector<std::vector<int>>& t = tab[nk & 31];
+    if (t.empty())
+        for (unsigned c = 0; c < 1u + nk + nk * nk + nk * nk * nk; ++c) t.push_back(decode_list_uncached(c, nk));
+    static const std::vector<int> none;
+    return code < t.size() ? t[code] : none;
+}
 inline unsigned num_lists(int nk, int maxlen) {
     unsigned n = 0, cnt = 1;
     for (int len = 0; len <= maxlen; ++len) {
@@ -130,13 +156,20 @@ inline std::string list_str(const std::vector<int>& l) {
 }
 
 // registration functions of the TUs
-void register_dary_a(std::vector<Config>&, bool thorough);
-void register_dary_b(std::vector<Config>&, bool thorough);
-void register_addr_a(std::vector<Config>&, bool thorough);
-void register_addr_b(std::vector<Config>&, bool thorough);
-void register_radix_a(std::vector<Config>&, bool thorough);
-void register_radix_b(std::vector<Config>&, bool thorough);
-void register_radix_c(std::vector<Config>&, bool thorough);
-void register_radix_d(std::vector<Config>&, bool thorough);
+void register_dary_1(std::vector<Config>&, bool thorough);
+void register_dary_2(std::vector<Config>&, bool thorough);
+void register_dary_3(std::vector<Config>&, bool thorough);
+void register_dary_4(std::vector<Config>&, bool thorough);
+void register_addr_1(std::vector<Config>&, bool thorough);
+void register_addr_2(std::vector<Config>&, bool thorough);
+void register_addr_3(std::vector<Config>&, bool thorough);
+void register_radix_1(std::vector<Config>&, bool thorough);
+void register_radix_2(std::vector<Config>&, bool thorough);
+void register_radix_3(std::vector<Config>&, bool thorough);
+void register_radix_4(std::vector<Config>&, bool thorough);
+void register_radix_5(std::vector<Config>&, bool thorough);
+void register_radix_6(std::vector<Config>&, bool thorough);
+void register_radix_7(std::vector<Config>&, bool thorough);
+void register_radix_8(std::vector<Config>&, bool thorough);
 
 }  // namespace c13
